@@ -376,53 +376,61 @@ func TestC11Race(t *testing.T) {
 	})
 	// S7: cached service tickets have ended but are renewable (the KDC honours them within its clock skew):
 	// several goroutines ask for them at once, each call that renews returns the renewed ticket with ITS key
-	c11Watchdog("renew-ended-service-tickets", 30*time.Second, func() {
-		sim := newKDCSim(simPolicy{maxLife: 1500 * time.Millisecond, maxRenew: time.Hour, sessionEt: 18, grace: 5 * time.Minute}, 24*time.Hour, NewRNG(9))
-		defer sim.close()
-		cfg, err := config.NewFromString(sim.conf(" ticket_lifetime = 24h\n renew_lifetime = 72h\n"))
-		if err != nil {
-			t.Fatal(err)
-		}
-		cl := client.NewWithPassword(c09User, "TEST.GOKRB5", clientPassword, cfg, client.DisablePAFXFAST(true))
-		if err := cl.Login(); err != nil {
-			fmt.Printf("C11-NOTE login failed: %v\n", err)
-		}
-		for round := 0; round < 2; round++ {
-			for _, spn := range spns[:3] {
-				cl.GetServiceTicket(spn)
+	for _, renewable := range []bool{true, false} {
+		// (not renewable: the ended tickets are dead entries of the cache that several goroutines come across at once)
+		renewable := renewable
+		c11Watchdog(fmt.Sprintf("ended-service-tickets/renewable=%v", renewable), 30*time.Second, func() {
+			pol := simPolicy{maxLife: 1500 * time.Millisecond, maxRenew: time.Hour, sessionEt: 18, grace: 5 * time.Minute}
+			if !renewable {
+				pol.maxRenew = 0
 			}
-			time.Sleep(1600 * time.Millisecond)
-			var wg sync.WaitGroup
-			var okN, badN int64
-			for g := 0; g < 6; g++ {
-				wg.Add(1)
-				go func(g int) {
-					defer wg.Done()
-					for i := 0; i < 4; i++ {
-						spn := spns[(g+i)%3]
-						tkt, key, err := cl.GetServiceTicket(spn)
-						if err != nil {
-							continue
-						}
-						var id int
-						fmt.Sscanf(string(tkt.EncPart.Cipher), "TKT:%d", &id)
-						sim.mu.Lock()
-						ok := id >= 1 && id <= len(sim.tickets) && X(sim.tickets[id-1].key.KeyValue) == X(key.KeyValue) && strings.Join(sim.tickets[id-1].sname, "/") == spn
-						sim.mu.Unlock()
-						if ok {
-							atomic.AddInt64(&okN, 1)
-						} else {
-							atomic.AddInt64(&badN, 1)
-							fmt.Printf("C11-PAIR-MISMATCH spn=%s ticket=%d (a ticket renewed after its end)\n", spn, id)
-						}
-					}
-				}(g)
+			sim := newKDCSim(pol, 24*time.Hour, NewRNG(9))
+			defer sim.close()
+			cfg, err := config.NewFromString(sim.conf(" ticket_lifetime = 24h\n renew_lifetime = 72h\n"))
+			if err != nil {
+				t.Fatal(err)
 			}
-			wg.Wait()
-			fmt.Printf("C11-STATS renew-ended-service-tickets round=%d ok=%d mismatched=%d\n", round, okN, badN)
-		}
-		cl.Destroy()
-	})
+			cl := client.NewWithPassword(c09User, "TEST.GOKRB5", clientPassword, cfg, client.DisablePAFXFAST(true))
+			if err := cl.Login(); err != nil {
+				fmt.Printf("C11-NOTE login failed: %v\n", err)
+			}
+			for round := 0; round < 2; round++ {
+				for _, spn := range spns[:3] {
+					cl.GetServiceTicket(spn)
+				}
+				time.Sleep(1600 * time.Millisecond)
+				var wg sync.WaitGroup
+				var okN, badN int64
+				for g := 0; g < 6; g++ {
+					wg.Add(1)
+					go func(g int) {
+						defer wg.Done()
+						for i := 0; i < 4; i++ {
+							spn := spns[(g+i)%3]
+							tkt, key, err := cl.GetServiceTicket(spn)
+							if err != nil {
+								continue
+							}
+							var id int
+							fmt.Sscanf(string(tkt.EncPart.Cipher), "TKT:%d", &id)
+							sim.mu.Lock()
+							ok := id >= 1 && id <= len(sim.tickets) && X(sim.tickets[id-1].key.KeyValue) == X(key.KeyValue) && strings.Join(sim.tickets[id-1].sname, "/") == spn
+							sim.mu.Unlock()
+							if ok {
+								atomic.AddInt64(&okN, 1)
+							} else {
+								atomic.AddInt64(&badN, 1)
+								fmt.Printf("C11-PAIR-MISMATCH spn=%s ticket=%d (a ticket renewed after its end)\n", spn, id)
+							}
+						}
+					}(g)
+				}
+				wg.Wait()
+				fmt.Printf("C11-STATS ended-service-tickets renewable=%v round=%d ok=%d mismatched=%d\n", renewable, round, okN, badN)
+			}
+			cl.Destroy()
+		})
+	}
 	// S6: Destroy is called while the auto-renewal goroutine of the TGT session is in the middle of a renewal (its
 	// request is with a slow KDC): Destroy returns, and so does everything else, whatever the renewal does next
 	for _, at := range []time.Duration{5 * time.Millisecond, 300 * time.Millisecond} {
